@@ -1,5 +1,6 @@
 /* C20 driver: h3ToString / stringToH3 events.  drv_c20 <quick|thorough> <seed> <out> [wordsfile] */
 #include "vtrace.h"
+#include <errno.h>
 
 static void bytes(const unsigned char *b, size_t n) {
     fputc('[', vt_out); for (size_t i = 0; i < n; i++) fprintf(vt_out, "%s%u", i ? "," : "", b[i]); fputc(']', vt_out);
@@ -52,6 +53,14 @@ int main(int argc, char **argv) {
         char s[24]; int n = (int)vt_randn(19);
         for (int j = 0; j < n; j++) s[j] = vt_randn(5) ? alpha[vt_randn(sizeof alpha - 1)] : (char)(1 + vt_randn(255));
         s[n] = 0; ev_parse(s);
+    }
+    /* history: the answers must not depend on what was parsed before or on the caller's errno */
+    for (int i = 0; i < (quick ? 600 : 6000); i++) {
+        static const char *junk[] = {"123456789abcdef012", "ffffffffffffffffffffffff", "", "zz", "1e999", "-", "0x", "99999999999999999999"};
+        ev_parse(junk[vt_randn(8)]);
+        if (vt_randn(2)) errno = vt_randn(2) ? ERANGE : EINVAL;
+        ev_tostring(vt_randn(2) ? vt_random_cell((int)vt_randn(16)) : vt_rand(), 17 + vt_randn(8), 0xEE);
+        if (vt_randn(3) == 0) { errno = ERANGE; ev_parse("8928308280fffff"); ev_parse("0"); ev_parse("ffffffffffffffff"); }
     }
     vt_close();
     return 0;
